@@ -231,3 +231,8 @@ mod tests {
         assert!(r.is_err());
     }
 }
+
+// Verification hook (/verif): contract proof harnesses; compiled only by `cargo kani`.
+#[cfg(kani)]
+#[path = "/verif/kani/http_client.rs"]
+mod verif_kani;
